@@ -800,22 +800,23 @@ func flagPackRule(p *Program, r *Report, rule string, roots []*ssa.Function, min
 		r.Unresolved(rule, fmt.Sprintf("flag packing / unpacking sites (found %d of %d)", len(sites), minSites))
 		return
 	}
-	ref := sites[0]
-	for _, s := range sites {
-		if !s.table {
-			ref = s
-			break
-		}
-	}
 	for _, s := range sites {
 		if s.table {
 			r.Add(rule, FnName(s.fn), "flag byte k expands to bits 8k..8k+7, least significant first (table form)", s.pos, s.tableOK, s.tableHow)
 			continue
 		}
-		ok := s.byteIdx == ref.byteIdx && s.bitP == ref.bitP && strings.HasPrefix(s.byteIdx, "/(ind(#0,#1),#8)") && strings.HasPrefix(s.bitP, "%(ind(#0,#1),#8)")
-		r.Add(rule, FnName(s.fn), "flag bit i lives in byte i/8 at bit position i%8", s.pos, ok, "byte "+s.byteIdx+", bit "+s.bitP)
+		// the counter i is a full-range induction from 0: the index-loop form ind(0,1) or the range-loop form 1+ind(−1,1)
+		// (benign round 4, C11-y1: `for i, bit := range bits`); every site may use either, consistently
+		ctr := ""
+		for _, form := range []string{"ind(#0,#1)", "+(#1,ind(#-1,#1))"} {
+			if s.byteIdx == "/("+form+",#8)" && s.bitP == "%("+form+",#8)" {
+				ctr = form
+			}
+		}
+		r.Add(rule, FnName(s.fn), "flag bit i lives in byte i/8 at bit position i%8", s.pos, ctr != "", "byte "+s.byteIdx+", bit "+s.bitP)
 		if s.src != "" {
-			r.Add(rule, FnName(s.fn), "the bit packed at position i is flag bit i", s.pos, s.src == "ind(#0,#1)", "source index "+s.src)
+			// the range-loop form reads the element through the range variable: same counter, or the element load of it
+			r.Add(rule, FnName(s.fn), "the bit packed at position i is flag bit i", s.pos, ctr != "" && s.src == ctr, "source index "+s.src)
 		}
 		if s.size != "" {
 			r.Add(rule, FnName(s.fn), "flag bytes number ⌈bits/8⌉", s.pos, (strings.HasPrefix(s.size, "/(+(#7,len(") || strings.HasPrefix(s.size, "/(+(len(")) && strings.HasSuffix(s.size, ",#8)"), s.size)
